@@ -34,7 +34,21 @@ def gen_cases(tier, seed):
         if len(d["workload"]["einsums"]) > 1:
             d["mapper"]["max_fused_loops"] = rnd.choice([0, 1, 2, "inf"])
             d["mapper"]["max_fused_loops_per_rank_variable"] = rnd.choice([1, 1, 2])
-        cases.append({"class": wk + "/" + d["arch"]["size_class"], "desc": d,
+        if i % 4 == 3 and len(d["workload"]["einsums"]) == 1:
+            # spatial class: a Container with one fanout and (usually) a loop_bounds constraint
+            rvs = sorted(d["workload"]["ranks"])
+            sp = {"name": "X", "fanout": rnd.choice([2, 3, 4])}
+            kind = rnd.choice(["none", "only", "le", "prod"])
+            if kind == "only":
+                sp["loop_bounds"] = [{"expression": "~" + rnd.choice(rvs), "operator": "==", "value": 1}]
+            elif kind == "le":
+                sp["loop_bounds"] = [{"expression": rnd.choice(rvs + ["All"]) if False else rnd.choice(rvs), "operator": "<=", "value": rnd.choice([1, 2])}]
+            elif kind == "prod":
+                a_, b_ = rnd.sample(rvs, 2)
+                sp["loop_bounds"] = [{"expression": f"{a_} | {b_}", "operator": "product<=", "value": rnd.choice([2, 3])}]
+            d["arch"]["mems"].append({"kind": "Container", "name": "PE", "spatial": [sp]})
+            d["class"] += "/spatial:" + kind
+        cases.append({"class": wk + "/" + d["arch"]["size_class"] + ("/spatial" if "spatial" in d["class"] else ""), "desc": d,
                       "metrics": rnd.choice(["ENERGY", "LATENCY", "ENERGY|LATENCY", "ENERGY|LATENCY|RESOURCE_USAGE"])})
     return cases
 
@@ -48,6 +62,16 @@ def run_case(case):
         rows = H.result_rows(H.run_mapper(d, case["metrics"]))
     except H.NoMapping:
         return {"status": "ok", "counters": {"no_valid_mapping": 1}}
+    except (AttributeError, TypeError, KeyError, IndexError, AssertionError) as ex:
+        # an internal error of the mapper on a spec the frontend accepted (not a validation error)
+        import traceback
+        tb = traceback.extract_tb(ex.__traceback__)
+        inside = [f for f in tb if "/accelforge/" in f.filename]
+        if not inside:
+            raise
+        return {"status": "violation", "violations": [{"sig": f"mapper_raises:{type(ex).__name__}",
+                "witness": {"error": str(ex)[:300], "where": f"{inside[-1].filename.split('/accelforge/')[-1]}:{inside[-1].name}", "spec": gs.summary(d),
+                            "spatial": [m.get("spatial") for m in d["arch"]["mems"] if m.get("spatial")]}}], "counters": counters}
     for r in rows[:25]:
         counters["returned_mappings_validated"] = counters.get("returned_mappings_validated", 0) + 1
         probs = validate(d, r["tree"])
